@@ -16,6 +16,10 @@ func checkC03(c *Ctx) {
 	c.Decides("ORIENT: a node made the root in the block that attaches it as the child end of a new branch (ConnectNodes(parent, child); SetRoot(child)) is followed by a re-orientation")
 	c.orientRule("ORIENT")
 	c.Floor("ORIENT", 4)
+	c.Decides("SNAPSHOT: a loop of package tree over a snapshot (make+copy) of a node's neigh or br reads the node's other parallel slice at the loop index only through a snapshot as well")
+	ns, _ := c.snapshotParallel("SNAPSHOT", c.AllFuncs("tree"))
+	c.Extra["snapshot_loops"] = ns
+	c.Floor("SNAPSHOT", 1)
 	c.Decides("ORIENT-CUR: every flip of a branch (Edge.Inverse) in package tree is guarded by a condition reading the current left/right end of a branch (directly, through getters, through locals, or through a helper that reads them) and never only by remembered state")
 	c.Extra["flip_sites"] = c.orientCurrentRule("ORIENT-CUR")
 	c.Floor("ORIENT-CUR", 3)
